@@ -131,6 +131,13 @@ func toBytes(f net.Addr, fwdType int) []byte {
 // StartPFServer handles the PFControlTube and starts the appropriate PF
 // based on the client's PF information sent through the common.PFControlTube.
 func StartPFServer(ch *tubes.Reliable, forward *Forward, muxer *tubes.Muxer) {
+	StartPFServerAuthorized(ch, forward, muxer, nil)
+}
+
+// StartPFServerAuthorized is StartPFServer with a callback that is asked,
+// once the requested forwarding type (PfLocal or PfRemote) is known and
+// before anything is dialed or listened on, whether it may be started.
+func StartPFServerAuthorized(ch *tubes.Reliable, forward *Forward, muxer *tubes.Muxer, authorize func(fwdType byte) error) {
 
 	addr, fwdType, err := readPacket(ch)
 
@@ -138,6 +145,15 @@ func StartPFServer(ch *tubes.Reliable, forward *Forward, muxer *tubes.Muxer) {
 		ch.Write([]byte{failure})
 		ch.Close()
 		return
+	}
+
+	if authorize != nil {
+		if err := authorize(fwdType); err != nil {
+			logrus.Errorf("PF: refusing port forwarding request: %v", err)
+			ch.Write([]byte{failure})
+			ch.Close()
+			return
+		}
 	}
 
 	switch fwdType {
